@@ -445,17 +445,28 @@ Section Confirm.
      exported, so bridge-call confirms vanish with them); InitGenesis stores each listed confirm again under
      every oracle RECORD whose BridgerAddress equals the confirm's BridgerAddress, with the key built from the
      confirm's own token/nonce.  A confirm whose bridger matches no record (its oracle ran MsgEditBridger
-     afterwards) is dropped. *)
+     afterwards) is dropped; a confirm whose bridger account has meanwhile been bound by ANOTHER oracle is
+     filed under that oracle (finding C12-1). *)
   Definition resolve (orcs : list (Z * oracle)) (b : Z) : list Z :=
     map fst (filter (fun p => o_bridger (snd p) =? b) orcs).
+  (* the repaired variant: GetOracleAddrByExternalAddr on the index InitGenesis has just rebuilt from the
+     records (one entry per external address; the record written last wins) *)
+  Definition resolve_ext (orcs : list (Z * oracle)) (e : Z) : list Z :=
+    match rev (filter (fun p => o_external (snd p) =? e) orcs) with
+    | p :: _ => [fst p]
+    | [] => []
+    end.
+  Definition owners (by_ext : bool) (st : cstate) (m : cmsg) : list Z :=
+    if by_ext then resolve_ext (st_oracles st) (m_external m) else resolve (st_oracles st) (m_bridger m).
   Definition exported (st : cstate) : list (ckey * cmsg) :=
     filter (fun e => negb (kind_eqb (fst (fst (fst (fst e)))) KCall) &&
                      match assoc okey_eqb (fst (fst e)) (st_objs st) with Some _ => true | None => false end)
            (st_conf st).
-  Definition import_conf (st : cstate) : list (ckey * cmsg) :=
+  (* by_ext = Gen_Checkpoint.genesis_confirm_owner_by_external: which of the two the tree does *)
+  Definition import_conf (by_ext : bool) (st : cstate) : list (ckey * cmsg) :=
     fold_left (fun acc e =>
                  fold_left (fun acc oa => kv_set ckey_eqb (msg_okey (snd e), oa) (snd e) acc)
-                           (resolve (st_oracles st) (m_bridger (snd e))) acc)
+                           (owners by_ext st (snd e)) acc)
               (exported st) [].
 
   (* the acceptance rule, as a proposition *)
